@@ -109,7 +109,9 @@ StrictRead(s, shape, tab) ==
 (* Region-free never-accept predicates (C05, "never accepted" clause) for  *)
 (* strings the strict reader does not judge.                               *)
 (***************************************************************************)
-NeverAccept(s) == ~StartsWith(s, PKG) \/ ~Decode(s).ok
+\* (letter-case variants of the scheme itself are not judged, C05)
+SchemeVariant(s) == Len(s) >= 4 /\ ALowerS(Take(s, 4)) = PKG
+NeverAccept(s) == (~StartsWith(s, PKG) /\ ~SchemeVariant(s)) \/ ~Decode(s).ok
 
 (***************************************************************************)
 (* Verdict printed with every case:                                        *)
